@@ -1046,6 +1046,10 @@ package scipipe
 //@ func (*BaseProcess).OutParamPort(p, portName) (res)
 //@   props C16 C19
 //@   ensures returns-only-if-present: portName in p.outParamPorts && res == p.outParamPorts[portName]
+//@ func (*BaseProcess).Auditf(p, msg, parts)
+//@   props C19
+//@ func (*BaseProcess).Audit(p, msg)
+//@   props C19
 //@ func (*BaseProcess).CloseAllOutPorts(p)
 //@   props C19
 //@   trusted closes the out-ports (CloseOutPorts: proved under C04/C05 to send nothing; CloseOutParamPorts is its twin); only "nothing is sent while closing" is used by the callers in package components
